@@ -755,6 +755,71 @@ func r14_4(c *Ctx) {
 			c.ok(name+": builder only read", f.Pos(), "builder references followed through %s: no write, no writable retention", strings.Join(fns, ", "))
 		}
 	}
+	wholeStructCopies(c)
+}
+
+// wholeStructCopies: `clone := *b` copies a builder / compiler / lexer / parser value field by field — its slices and
+// maps then share their backing store with the original's until they are replaced. Every slice- or map-typed field of
+// such a copy must be given a clone of the same field of the source (slices.Clone, slices.Clip(slices.Clone),
+// maps.Clone) or a fresh value (make, literal, nil) in the same function; a field left as copied is reported: an append
+// through one object can overwrite what the other one appended.
+func wholeStructCopies(c *Ctx) {
+	owned := map[string]bool{"parser.Builder": true, "lexer.Builder": true, "compiler.Compiler": true, "parser.Parser": true, "lexer.Lexer": true, "ast.CodeWriter": true, "sourcemap.SourceMapper": true}
+	for _, f := range c.libFunctions() {
+		allInstrs(f, func(_ *ssa.BasicBlock, _ int, in ssa.Instruction) {
+			st, ok := in.(*ssa.Store)
+			if !ok {
+				return
+			}
+			al, ok := st.Addr.(*ssa.Alloc)
+			if !ok {
+				return
+			}
+			nt := namedOf(deref(al.Type()))
+			if nt == nil || nt.Obj().Pkg() == nil || !owned[shortPkg(nt.Obj().Pkg().Path())+"."+nt.Obj().Name()] {
+				return
+			}
+			ld, ok := st.Val.(*ssa.UnOp)
+			if !ok || ld.Op != token.MUL {
+				return
+			}
+			stt, ok := nt.Underlying().(*types.Struct)
+			if !ok {
+				return
+			}
+			for i := 0; i < stt.NumFields(); i++ {
+				fld := stt.Field(i)
+				switch fld.Type().Underlying().(type) {
+				case *types.Slice, *types.Map:
+				default:
+					continue
+				}
+				key := fmt.Sprintf("%s: copy of a %s value, field %s", fnName(f), nt.Obj().Name(), fld.Name())
+				replaced := false
+				allInstrs(f, func(_ *ssa.BasicBlock, _ int, in2 ssa.Instruction) {
+					st2, ok := in2.(*ssa.Store)
+					if !ok || !instrReachableAfter(st, st2) {
+						return
+					}
+					fa, ok := st2.Addr.(*ssa.FieldAddr)
+					if !ok || fa.X != ssa.Value(al) || fieldOfAddr(fa) != fld {
+						return
+					}
+					if copyConstructStore(st2) || freshSlice(st2.Val) || isNilConst(st2.Val) {
+						replaced = true
+					}
+					if _, isMake := st2.Val.(*ssa.MakeMap); isMake {
+						replaced = true
+					}
+					if el, ok := sliceLitElems(st2.Val); ok && len(el) == 0 {
+						replaced = true
+					}
+				})
+				c.check(replaced, key, st.Pos(), "replaced by a clone of the source's field (or a fresh value) in the same function",
+					fmt.Sprintf("the copied %s shares the backing store of %s with the value it was copied from: an append or map write through one of the two objects can overwrite what the other one holds", nt.Obj().Name(), fld.Name()))
+			}
+		})
+	}
 }
 
 // ---------------------------------------------------------------------------------------------
